@@ -53,7 +53,7 @@ var concTemplates = map[string]string{
 	// barrier while the other callers look up theirs
 	"g_obj.html": `{{ o.Held(r) }}|{{ o.Who }}|{{ p.Held(r) }}|{{ o.ID }}|{{ o.Twice(x) }}|{{ l[0].Who }}|{{ mp.k.Who }}`,
 	"o.html":     `{{ o.Who }}|{{ o.ID }}|{{ p.Who }}|{{ o.Twice(y) }}{% for e in l %}{{ e.Who }}{{ e.Val }}{% endfor %}|{{ mp.k.Who }}{{ o.Val }}`,
-	"i.html": `{% use 'a.html' %}{% import 'f' as lib %}{{ lib.m(n) }}{{ block('b') }}{% filter upper %}{{ n }}{% endfilter %}{% verbatim %}{{ v }}{% endverbatim %}`,
+	"i.html":     `{% use 'a.html' %}{% import 'f' as lib %}{{ lib.m(n) }}{{ block('b') }}{% filter upper %}{{ n }}{% endfilter %}{% verbatim %}{{ v }}{% endverbatim %}`,
 }
 
 var concGated = []string{"j.html", "g_for.html", "g_block.html", "g_macro.html", "g_embed.html", "g_filter.html", "g_expr.js", "g_import.html", "g_use.css", "g_obj.html"}
@@ -165,7 +165,7 @@ func init() {
 			Env    string `json:"env"`
 			Seed   int    `json:"seed"`
 			Loader string `json:"loader"` // "" = MemoryLoader, "fs" = FilesystemLoader
-			Gate   bool   `json:"gate"` // schedule: every caller of a round is inside Execute (three includes deep) at the same time
+			Gate   bool   `json:"gate"`   // schedule: every caller of a round is inside Execute (three includes deep) at the same time
 		}
 		if err := json.Unmarshal(raw, &c); err != nil {
 			return nil, err
